@@ -130,6 +130,10 @@ class Matrix(Relation):
         n_cells = n_nt = 0
         base = tempfile.mkdtemp(prefix='c14-', dir=_scratch())
         try:
+            # a prelude: each writer used once with unusual but valid options
+            # (a FITS header of the caller's own, a coarse DS9 precision, CRTF
+            # in radians) - what one write was told must not show in the next
+            self._prelude(base, specs)
             for fmt in ('ds9', 'crtf', 'fits'):
                 faults = [('none', None)]
                 faults += [('poison', k) for k in range(n)]
@@ -157,6 +161,26 @@ class Matrix(Relation):
         ctx.evaluations -= 1
 
     # ------------------------------------------------------------------
+    @staticmethod
+    def _prelude(base, specs):
+        from astropy.io import fits
+        from regions import Regions
+        regs = Regions([S.build(r) for r in specs])
+        hdr = fits.Header()
+        hdr['EXTNAME'] = 'EVENTS'
+        hdr['HDUCLAS1'] = 'OTHER'
+        hdr['OBSERVER'] = 'prelude'
+        for name, kw in (('p.fits', {'header': hdr}),
+                         ('p.reg', {'precision': 2}),
+                         ('p.crtf', {'coordsys': 'image', 'fmt': '.2f',
+                                     'radunit': 'rad'})):
+            try:
+                with warnings.catch_warnings():
+                    warnings.simplefilter('ignore')
+                    regs.write(os.path.join(base, name), overwrite=True, **kw)
+            except Exception:   # noqa: BLE001 - the prelude is not judged
+                pass
+
     def cell(self, ctx, base, specs, fmt, dest, overwrite, fault, cell_no):
         import regions as R
         from regions import Regions
